@@ -173,13 +173,23 @@ def command_probe(cs, spec):
     objs = {}
     picked = [(c, s) for i, (c, s) in enumerate(zip(cs, spec))
               if s != ("ok", b"") and (len(c[0]) >= 200 or len(c[2]) >= 200 or (c[2] and i % 5 == 0) or i % 40 == 0)]
+    def ascii_text(b):
+        try:
+            return b.decode("ascii") if b else None
+        except UnicodeDecodeError:
+            return None
+    work = []
     for (k, allow, p), s in picked:
-        if (allow, p) not in objs:
+        work.append((k, allow, p, p, s))
+        if ascii_text(p) is not None and len(k) % 3 == 0:
+            work.append((k, allow, p, ascii_text(p), s))       # the same prefix given as str: the three classes encode it (ASCII)
+    for k, allow, p, pgiven, s in work:
+        if (allow, pgiven) not in objs:
             mods = [_RecMod(), _RecMod(), _RecMod()]
-            objs[(allow, p)] = (mods, (Client(("h", 1), key_prefix=p, allow_unicode_keys=allow, socket_module=mods[0]),
-                                       PooledClient(("h", 1), key_prefix=p, allow_unicode_keys=allow, socket_module=mods[1]),
-                                       HashClient([("h", 1)], key_prefix=p, allow_unicode_keys=allow, socket_module=mods[2])))
-        mods, clients = objs[(allow, p)]
+            objs[(allow, pgiven)] = (mods, (Client(("h", 1), key_prefix=pgiven, allow_unicode_keys=allow, socket_module=mods[0]),
+                                            PooledClient(("h", 1), key_prefix=pgiven, allow_unicode_keys=allow, socket_module=mods[1]),
+                                            HashClient([("h", 1)], key_prefix=pgiven, allow_unicode_keys=allow, socket_module=mods[2])))
+        mods, clients = objs[(allow, pgiven)]
         for mod, cl in zip(mods, clients):
             for name, f in COMMANDS:
                 if not hasattr(cl, name):
@@ -197,9 +207,48 @@ def command_probe(cs, spec):
                     if mod.log:
                         got = ("ex+sent", exn_name(e))
                 if got != s:
-                    found.append({"input": {"key": repr(k), "allow_unicode_keys": allow, "prefix": repr(p), "command": name},
+                    found.append({"input": {"key": repr(k), "allow_unicode_keys": allow, "prefix": repr(pgiven), "command": name},
                                   "site": "%s.%s" % (type(cl).__name__, name), "observed": repr(got), "expected": repr(s),
                                   "oracle": "Spec.LegalKey.key_spec (extracted)", "size": len(k) + len(p)})
+    return found, n
+
+
+READ_COMMANDS = ("get", "gets", "get_many", "gets_many", "get_multi", "gat", "gats")
+KF_POOLED_IGNORE = "C20-pooled-ignore-exc-swallows-illegal-key"
+
+
+def ignore_exc_probe(cs_, spec):
+    """The same rule with ignore_exc=True: ignore_exc is about server and network failures; a key the rule rejects is still an input
+    error (Client and HashClient check the key before anything that ignore_exc guards).  Only rejected keys are interesting here."""
+    from pymemcache.client.base import Client, PooledClient
+    from pymemcache.client.hash import HashClient
+    from harness.core import exn_name
+    found, n, objs = [], 0, {}
+    picked = [(c, s) for i, (c, s) in enumerate(zip(cs_, spec)) if s[0] == "ex" and len(c[0]) > 0 and (i % 7 == 0 or len(c[0]) >= 200)]
+    for (k, allow, p), s in picked:
+        if (allow, p) not in objs:
+            mods = [_RecMod(), _RecMod(), _RecMod()]
+            objs[(allow, p)] = (mods, (Client(("h", 1), key_prefix=p, allow_unicode_keys=allow, socket_module=mods[0], ignore_exc=True),
+                                       PooledClient(("h", 1), key_prefix=p, allow_unicode_keys=allow, socket_module=mods[1], ignore_exc=True),
+                                       HashClient([("h", 1)], key_prefix=p, allow_unicode_keys=allow, socket_module=mods[2], ignore_exc=True)))
+        mods, clients = objs[(allow, p)]
+        for mod, cl in zip(mods, clients):
+            for name, f in COMMANDS:
+                if name not in READ_COMMANDS or not hasattr(cl, name):
+                    continue
+                n += 1
+                del mod.log[:]
+                try:
+                    r = f(cl, k)
+                    got = ("ok", "returned %r, sent %r" % (r, b"".join(mod.log)[:40]))
+                except BaseException as e:  # noqa
+                    got = ("ex", exn_name(e))
+                if got != s:
+                    pooled_swallow = isinstance(cl, PooledClient) and got[0] == "ok" and not mod.log
+                    found.append({"input": {"key": repr(k), "allow_unicode_keys": allow, "prefix": repr(p), "command": name, "ignore_exc": True},
+                                  "site": "%s(ignore_exc=True).%s" % (type(cl).__name__, name), "observed": repr(got), "expected": repr(s),
+                                  "oracle": "Spec.LegalKey.key_spec (extracted)", "size": len(k) + len(p),
+                                  "finding": KF_POOLED_IGNORE if pooled_swallow else None})
     return found, n
 
 
@@ -244,9 +293,17 @@ def search(ctx):
                               "size": len(k) + len(p)})
     f2, n_cmd = command_probe(cs, spec)
     found += f2
-    ctx.search_summary = {"helper_vs_spec": len(cs), "class_sites_vs_spec": n_cls, "commands_vs_spec": n_cmd}
+    f3, n_ign = ignore_exc_probe(cs, spec)
+    found += f3
+    ctx.search_summary = {"helper_vs_spec": len(cs), "class_sites_vs_spec": n_cls, "commands_vs_spec": n_cmd, "read_commands_with_ignore_exc": n_ign}
     found.sort(key=lambda v: v["size"])
-    return found[:1]
+    out, seen = [], set()
+    for v in found:                 # the smallest violation of each kind: unlisted ones and each listed finding
+        kf = v.get("finding")
+        if kf not in seen:
+            seen.add(kf)
+            out.append(v)
+    return out
 
 
 def replay(ctx, obj):
